@@ -437,15 +437,8 @@ func (rt *runtime) convertCallParameter(v Value, t reflect.Type) (reflect.Value,
 				switch o.class {
 				case classArrayName:
 					for i := range l {
-						p, ok := o.property[strconv.FormatInt(i, 10)]
-						if !ok {
-							continue
-						}
-
-						e, ok := p.value.(Value)
-						if !ok {
-							continue
-						}
+						// [[Get]]: a hole (or an inherited or accessor element) reads as a script reads it.
+						e := o.get(strconv.FormatInt(i, 10))
 
 						ev, err := rt.convertCallParameter(e, tt)
 						if err != nil {
